@@ -1744,6 +1744,13 @@ func (sc *serverConn) processHeaders(f *MetaHeadersFrame) error {
 	// point, if it's valid).
 	st := sc.streams[f.Header().StreamID]
 	if st != nil {
+		// RFC 7540, sec 5.1: If an endpoint receives additional frames, other
+		// than WINDOW_UPDATE, PRIORITY, or RST_STREAM, for a stream that is in
+		// the "half-closed (remote)" state, it MUST respond with a stream error
+		// (Section 5.4.2) of type STREAM_CLOSED.
+		if st.state == stateHalfClosedRemote {
+			return StreamError{id, ErrCodeStreamClosed, "recv HEADERS frame from stream in 'half closed(remote)' state"}
+		}
 		return st.processTrailerHeaders(f)
 	}
 
